@@ -114,6 +114,12 @@ def run_and_check(filt, N, D, x, bt, what, leak_check=True):
   with warnings.catch_warnings(record=True) as w:
     warnings.simplefilter("always")
     out = filt(list(x), zero=ZERO)
+    # "sampled once per output sample": nothing is sampled by the call itself, and
+    # after j outputs every coefficient source has delivered exactly j values
+    for s, kind, l in bt.srcs:
+      if s.reads != 0:
+        raise Violation("%s: calling the filter already read %d value(s) of a %s coefficient source"
+                        % (what, s.reads, kind))
     got = []
     it = iter(out)
     while True:
@@ -123,6 +129,10 @@ def run_and_check(filt, N, D, x, bt, what, leak_check=True):
         break
       if len(got) > len(x) + 2:
         raise Violation("%s: more outputs than inputs" % what)
+      for s, kind, l in bt.srcs:
+        if s.reads != len(got):
+          raise Violation("%s: after %d output(s) a %s coefficient source had been read %d times"
+                          % (what, len(got), kind, s.reads))
     # a further next must still be StopIteration (clean end, nothing else)
     try:
       next(it)
@@ -269,7 +279,11 @@ def nonzero(m):
 def strat_algebra(tier):
   fir = lambda lo, hi: st.lists(coef(lo, hi), min_size=1, max_size=3).map(live)
   return st.integers(3, 7).flatmap(lambda n: st.fixed_dictionaries(dict(
-    op=st.sampled_from(["add", "sub", "mul", "scale", "delay", "mul_iir", "add_iir", "neg", "shared_square"]),
+    op=st.sampled_from(["add", "sub", "mul", "scale", "delay", "mul_iir", "add_iir", "neg", "shared_square",
+                        "hub_reuse", "hub_reuse"]),
+    hub=st.fixed_dictionaries(dict(c0=st.integers(1, 3), c1=st.integers(-3, 3).filter(lambda v: v != 0),
+                                   c2=st.integers(-2, 2), d=st.integers(3, 4), extra=st.integers(0, 1),
+                                   feedback=st.booleans())),
     f=shape(n - 2, n + 2), g=shape(n, n + 2), fb=fir(n - 2, n + 2), gb=fir(n, n + 2),
     c=st.sampled_from([2, -1, 3, 0.5]), k=st.integers(1, 3),
     x=st.lists(qv, min_size=n, max_size=n))))
@@ -280,7 +294,32 @@ def run_algebra(c):
   n = len(x) + 2
   bt = Built()
   one = [("const", 1)]
-  if op in ("add", "sub", "mul", "shared_square"):
+  if op == "hub_reuse":
+    # a coefficient the user wrapped in thub(stream, n) may be used in exactly n places of the
+    # algebra, each of which may multiply it into several terms
+    from audiolazy import thub
+    h = c["hub"]
+    seq = [v for v in c["fb"][0][1]] if c["fb"][0][0] == "seq" else [Q(2), Q(-1, 2), Q(3)] * 4
+    seq = [v if v != 0 else Q(1) for v in seq]
+    src = Src(seq)
+    bt.srcs.append((src, "hub", len(seq)))
+    uses = 2 + (1 if h["feedback"] else 0) + h["extra"]
+    k = thub(Stream(src), uses)
+    ks = [F(v) for v in seq[:n]]
+    P1 = h["c0"] + h["c1"] * z ** -1 + h["c2"] * z ** -2
+    real = k * P1 + k * z ** -h["d"]
+    N = {0: s_mul(ks, F(h["c0"])), 1: s_mul(ks, F(h["c1"])), 2: s_mul(ks, F(h["c2"])), h["d"]: list(ks)}
+    D = {0: F(1)}
+    if h["extra"]:
+      real = real + k * (z ** -5 - 2 * z ** -6)
+      N[5] = list(ks)
+      N[6] = s_mul(ks, F(-2))
+    if h["feedback"]:
+      den = 1 - k * (z ** -1 + 2 * z ** -2)
+      real = real / den
+      D = {0: F(1), 1: s_mul(ks, F(-1)), 2: s_mul(ks, F(-2))}
+    used = ("hub x%d" % uses, h)
+  elif op in ("add", "sub", "mul", "shared_square"):
     fb, gb = c["fb"], c["gb"]
     f = build_filter(fb, one, "expr", bt)
     Nf, Df = model_polys(fb, one, n)
@@ -339,7 +378,7 @@ def run_algebra(c):
   got = run_and_check(real, nonzero(N), nonzero(D), x, bt, "%s of b=%r a=%r" % (op, used[0], used[1]),
                       leak_check=False)
   nstreams = len(bt.srcs)
-  return {"nontrivial": nstreams >= 2 and len(got) >= 3, "labels": ["op:" + op] + (
+  return {"nontrivial": (nstreams >= 2 or op == "hub_reuse") and len(got) >= 3, "labels": ["op:" + op] + (
     ["coefficient stream ends first"] if any(l is not None and l < len(x) for _, _, l in bt.srcs) else [])}
 
 
@@ -351,6 +390,6 @@ CLAUSES = [
   Clause("constant_stream", strat_const, run_const, quick=500, thorough=8000,
          doc="a constant Stream coefficient behaves like the constant"),
   Clause("algebra", strat_algebra, run_algebra, quick=1200, thorough=25000,
-         floors={"op:add_iir": .04, "op:shared_square": .04, "op:mul": .04},
+         floors={"op:add_iir": .04, "op:shared_square": .04, "op:mul": .04, "op:hub_reuse": .08},
          doc="sum / difference / product / scaling / delay act on coefficient sequences element by element; tee accounting"),
 ]
